@@ -199,6 +199,22 @@ impl $t {
             Err(_) => frac.0.to_nat() == 0 || (self@ * frac.1.to_nat()) / frac.0.to_nat() > $max,
         }
     { unimplemented!() }
+    /// `checked_mul_ceil((n, d))` = ceil(self * n / d)
+    #[verifier::external_body]
+    pub fn checked_mul_ceil<A: ToNat, B: ToNat>(self, frac: (A, B)) -> (r: Result<$t, CheckedMultiplyFractionError>)
+        ensures match r {
+            Ok(x) => frac.1.to_nat() != 0 && x@ == ((self@ * frac.0.to_nat() + frac.1.to_nat() - 1) as nat) / frac.1.to_nat(),
+            Err(_) => frac.1.to_nat() == 0 || ((self@ * frac.0.to_nat() + frac.1.to_nat() - 1) as nat) / frac.1.to_nat() > $max,
+        }
+    { unimplemented!() }
+    /// `checked_div_ceil((n, d))` = ceil(self * d / n)
+    #[verifier::external_body]
+    pub fn checked_div_ceil<A: ToNat, B: ToNat>(self, frac: (A, B)) -> (r: Result<$t, CheckedMultiplyFractionError>)
+        ensures match r {
+            Ok(x) => frac.0.to_nat() != 0 && x@ == ((self@ * frac.1.to_nat() + frac.0.to_nat() - 1) as nat) / frac.0.to_nat(),
+            Err(_) => frac.0.to_nat() == 0 || ((self@ * frac.1.to_nat() + frac.0.to_nat() - 1) as nat) / frac.0.to_nat() > $max,
+        }
+    { unimplemented!() }
     /// integer square root: r*r <= self < (r+1)*(r+1)
     #[verifier::external_body]
     pub fn isqrt(self) -> (r: $t) ensures r@ * r@ <= self@, self@ < (r@ + 1) * (r@ + 1) { unimplemented!() }
